@@ -431,7 +431,7 @@ fn c09_eq_lists_comma_list_vs_bracketed_list() {
     kani::cover!(true);
 }
 
-//@ ob: id=C09/K/eq_lists_comma_list_vs_arglist kind=K-bounded fns=Value::eq,Value::not_equals,ArgList::eq bound="the two empty list-like values comma_list and arglist"
+//@ ob: id=C09/K/eq_lists_comma_list_vs_arglist kind=K-bounded tier=thorough fns=Value::eq,Value::not_equals,ArgList::eq bound="the two empty list-like values comma_list and arglist"
 //@ desc: == between list-like values (comma list, space list, bracketed list, argument list) is symmetric and != is its negation; an argument list is a list (ArgList == ArgList is not covered: BTreeMap comparison, DESIGN E-K15)
 #[kani::proof]
 #[kani::unwind(1)]
